@@ -36,6 +36,8 @@ func checkC03(c *Check, a *Anchors) {
 	errorBranchExits(c, a, "error-branch-exits")
 	elementLiteralCarriesFields(c, a, "element-literal-carries-fields")
 	c03ParallelFirstError(c, a)
+	c03ParallelGroupCancels(c, a)
+	lockReleasedOnEveryExit(c, a, "lock-released-on-every-exit") // "the invocation ends with a non-zero status": an error return that leaves a mutex locked makes the next task that needs it wait for ever instead
 }
 
 // ssaLabel names a call instruction by its (static or interface) callee object.
@@ -831,4 +833,52 @@ func c03ParallelFirstError(c *Check, a *Anchors) {
 			"after errgroup.Wait reported a failure this return yields "+exprStrOrNone(res)+", not Wait's result: with --parallel the reported error (and the exit code under -x) can be that of a call that was merely cancelled by the real failure")
 	}
 	c.Floor("parallel-first-error", n, 1)
+}
+
+// c03ParallelGroupCancels: with --parallel a failing call cancels the others.
+func c03ParallelGroupCancels(c *Check, a *Anchors) {
+	c.Rule("parallel-group-cancels", "in Run every errgroup.Go is made on a group created by errgroup.WithContext, and the spawned function runs the task under the context that WithContext returned: the first failing call cancels its siblings, which then start no further command (a zero-value errgroup.Group, or the caller's own context, lets them run to the end)")
+	fb := a.Run
+	c.Fn(fb)
+	info := fb.Info()
+	n := 0
+	ord := map[string]int{}
+	inspectDeep(fb.Body, func(nd ast.Node) bool {
+		call, ok := nd.(*ast.CallExpr)
+		if !ok || !isFunc(callee(info, call), "golang.org/x/sync/errgroup", "Group", "Go") || len(call.Args) != 1 {
+			return true
+		}
+		n++
+		sel, _ := ast.Unparen(call.Fun).(*ast.SelectorExpr)
+		var gv *types.Var
+		if sel != nil {
+			gv = varOf(info, sel.X)
+		}
+		var ctxVar *types.Var
+		withCtx := false
+		if gv != nil {
+			inspectBody(fb.Body, func(m ast.Node) bool {
+				if as, ok := m.(*ast.AssignStmt); ok && len(as.Lhs) == 2 && len(as.Rhs) == 1 && varOf(info, as.Lhs[0]) == gv {
+					if wc, ok := ast.Unparen(as.Rhs[0]).(*ast.CallExpr); ok && isFunc(callee(info, wc), "golang.org/x/sync/errgroup", "", "WithContext") {
+						withCtx, ctxVar = true, varOf(info, as.Lhs[1])
+					}
+				}
+				return true
+			})
+		}
+		okCtx := false
+		if lit, ok := ast.Unparen(call.Args[0]).(*ast.FuncLit); ok && ctxVar != nil {
+			okCtx = a.ctxReachesRunTask(c.P, c.P.LitBody(lit), ctxVar, 2)
+		} else if h, fields := a.methodValueSpawn(c.P, fb, call.Args[0]); h != nil && ctxVar != nil {
+			for name, val := range fields {
+				if varOf(info, val) == ctxVar && a.ctxReachesRunTaskP(c.P, h, recvFieldIs(h, name), 2) {
+					okCtx = true
+				}
+			}
+		}
+		c.Decide(withCtx && okCtx, "parallel-group-cancels", ordinal(ord, "spawn@"+fnDisplay(fb)), call.Pos(), "group from errgroup.WithContext, task run under its context",
+			fmt.Sprintf("the parallel calls are not started on a cancelling group (created by errgroup.WithContext: %v, RunTask under the group's context: %v): when one call fails the others are not cancelled and go on starting commands", withCtx, okCtx))
+		return true
+	})
+	c.Floor("parallel-group-cancels", n, 1)
 }
